@@ -130,7 +130,9 @@ StartupFailing(e) ==
   \cup (IF e.cached \in want THEN {}
         ELSE IF dk # "" /\ e.cached \in devwant THEN Dev(dk) ELSE {"startup_cache_bound"})
   \cup (IF freshOK THEN {} ELSE {"startup_fresh_registry"})
-  \cup (IF watchOK THEN {} ELSE {"startup_reload_watch"})
+  \cup (IF watchOK THEN {}
+        ELSE IF DevReloadKey(user, form, base, FS, Apps, e.wtarget) # "" /\ e.watch = "no"
+             THEN Dev(DevReloadKey(user, form, base, FS, Apps, e.wtarget)) ELSE {"startup_reload_watch"})
   \cup (IF autodOK THEN {} ELSE {"startup_autodiscover"})
   \cup (IF libsOK THEN {} ELSE {"startup_libraries"})
 
